@@ -38,6 +38,7 @@ CORR_N = {
     'regex.py': {'quick': 4000, 'thorough': 50000},
     'unicode.py': {'quick': 4000, 'thorough': 30000},
     'standards.py': {'quick': 6000, 'thorough': 40000},
+    'gs1.py': {'quick': 400, 'thorough': 3000},
 }
 
 PROPS = {
@@ -61,7 +62,7 @@ PROPS = {
     'C13': {'search': 'c13'},
     'C14': {'search': 'c14', 'scope': scope_funcs(modules={'stdnum.util'})},
     'C15': {'search': 'c15', 'scope': scope_funcs(names={'validate'})},
-    'C16': {'search': 'c16', 'scope': scope_funcs(modules={'stdnum.gs1_128'})},
+    'C16': {'search': 'c16', 'corr': ['gs1.py'], 'scope': scope_funcs(modules={'stdnum.gs1_128'})},
     'C17': {'search': 'c17', 'scope': scope_funcs(names={'validate'})},
     'C18': {'search': 'c18', 'corr': ['wsgi.py']},
 }
